@@ -432,9 +432,14 @@ def _polyroots_filters(ctx, mdl, fi, deg):
         r = it.call(it.closure_of('polytools.polyroots'), [list(coeffs)], {'realroots': True, 'condition': PyFunc(cond_hook, 'cond')})
         facts = []
         for z in roots:
-            sgn, key, _ = _canon_diff(z.imag())
-            real_ = it.trace.signs.get('close:' + key)
-            facts.append((real_, path_sign(it, z.real())))
+            # modulo the equalities the path has established (a coefficient that was tested against zero relates the roots)
+            zi, zr = it.trace.reduce(z.imag()), it.trace.reduce(z.real())
+            if zi.is_zero():
+                real_ = frozenset('0')
+            else:
+                sgn, key, _ = _canon_diff(zi)
+                real_ = it.trace.signs.get('close:' + key)
+            facts.append((real_, path_sign(it, zr)))
         return list(r), facts, it, called['roots']
 
     def judge(v):
@@ -471,8 +476,8 @@ def _polyroots_filters(ctx, mdl, fi, deg):
                     return None, 'closeness of roots %d and %d undecided on this path' % (j, i)
             if not dup:
                 survivors.append(i)
-        exp = [roots[i].real() for i in survivors]
-        got = [to_rat(x) for x in res]
+        exp = [it.trace.reduce(roots[i].real()) for i in survivors]
+        got = [it.trace.reduce(to_rat(x)) for x in res]
         # the survivors of a cluster may be any one member, but simple (non-clustered) roots must all be present exactly once
         ok = len(got) == len(exp) and all(g.equals(e) for g, e in zip(got, exp))
         if ok:
@@ -480,7 +485,9 @@ def _polyroots_filters(ctx, mdl, fi, deg):
         # accept another representative of the same cluster: compare as multisets of cluster ids
         return False, 'returns roots %s; expected the real parts of roots %s (real, satisfying the condition, one per cluster)' % (
             [short(g, 20) for g in got], survivors)
-    Obligation(ctx, 'R19.3').run(fi, 'polyroots(realroots=True, condition) on the monic polynomial with %d symbolic root(s)' % deg, th, judge)
+    # generic position: no coefficient of the polynomial vanishes (vanishing leading coefficients are the subject of the hand-over rule)
+    Obligation(ctx, 'R19.3').run(fi, 'polyroots(realroots=True, condition) on the monic polynomial with %d symbolic root(s)' % deg, th, judge,
+                                 opts={'presign': [(c_, '-+') for c_ in coeffs[1:]]})
 
 
 def _polyroots01_rules(ctx, mdl):
